@@ -456,6 +456,9 @@ Definition run_nonce_spec (x : xval) : xval :=
   end.
 
 Definition nonce_table : list (bytes * (xval -> xval)) :=
-  [ (B "nonce.page", run_nonce_page nonce_rewrite_v0 rs_add_v0 package_chain_v0);
+  [ (B "nonce.page", run_nonce_page nonce_rewrite rs_add package_chain);
     (B "nonce.spec", run_nonce_spec);
-    (B "csp.package", run_csp_package rs_add_v0 package_chain_v0) ].
+    (B "csp.package", run_csp_package rs_add package_chain);
+    (* the code as it was before the fix commits; model only (refutation witnesses, history) *)
+    (B "nonce.page_v0", run_nonce_page nonce_rewrite_v0 rs_add_v0 package_chain_v0);
+    (B "csp.package_v0", run_csp_package rs_add_v0 package_chain_v0) ].
